@@ -533,7 +533,10 @@ def judge(step, verdict, outcome, n_extra_cols, warns) -> dict | None:
                 epid = [(-1 if p == -1 else p - base) for p in exp["pid"]]
             else:
                 eid, epid = exp["id"], exp["pid"]
-            if cols["id"] != eid or cols["pid"] != epid:
+            fits = all(-2**31 <= v < 2**31 for v in eid + epid)
+            # a Tree keeps ids in 32-bit columns: sample numbers that do not fit even after re-basing (a damaged 64-bit
+            # id) cannot be carried by a Tree at all - the statement is silent there, nothing is demanded of id/pid
+            if (fits or not f32) and (cols["id"] != eid or cols["pid"] != epid):
                 return {"tag": "field_mismatch", "op": api, "detail": "id/pid columns differ from the rows"}
     if norm_comments(comments) != norm_comments(verdict["comments"]):
         return {"tag": "comments_mismatch", "op": api,
